@@ -128,7 +128,7 @@ func (u *Unit) execInstr(st *State, ins ssa.Instruction) {
 	u.noteLeaks(st, ins)
 	switch x := ins.(type) {
 	case *ssa.DebugRef:
-		if obj, ok := x.Object().(*types.Var); ok && !x.IsAddr {
+		if obj, ok := x.Object().(*types.Var); ok && !x.IsAddr && !obj.IsField() {
 			if st.dbg == nil {
 				st.dbg = map[string]ssa.Value{}
 			}
